@@ -882,7 +882,8 @@ func isUnknownSpec(a predOutcome) predOutcome {
 //@ alsoprops E2 C16
 //@ props C16
 //@ ensures [C16] array: is[[]any](value) ==> ncalls(exec.executeNextItem) == 1 && callarg[any](exec.executeNextItem, "value") == any(int64(len(as[[]any](value))))
-//@ ensures [C16] lax-one: !is[[]any](value) && (exec.path.IsLax() || exec.ignoreStructuralErrors) ==> ncalls(exec.executeNextItem) == 1 && callarg[any](exec.executeNextItem, "value") == any(int64(1))
+//@ ensures [C16] lax-one: !is[[]any](value) && exec.path.IsLax() ==> ncalls(exec.executeNextItem) == 1 && callarg[any](exec.executeNextItem, "value") == any(int64(1))
+//@ ensures [C16 C07 C15] strict-skipped-below-anypath: !is[[]any](value) && !exec.path.IsLax() && exec.ignoreStructuralErrors ==> ncalls(exec.executeNextItem) == 0 && r0 == statusNotFound && r1 == nil
 //@ ensures [C16] strict-error: !is[[]any](value) && !exec.path.IsLax() && !exec.ignoreStructuralErrors ==> ncalls(exec.executeNextItem) == 0 && r0 == statusFailed && (r1 == nil || errIs(r1, ErrVerbose))
 
 //@ func (*Executor).execMethodDouble
